@@ -87,7 +87,7 @@ func Now() time.Time {
 		return time.Now()
 	}
 	if !x.cfg.ClockAlt {
-		return T0
+		return T0.Add(x.cfg.ClockShift)
 	}
 	site := caller(2)
 	c := x.choose(KClock, 2, 1, func() string { return "time.Now@" + site })
